@@ -276,7 +276,7 @@ func c13L3(r *Run, rep *core.Report) {
 					}
 				}
 			})
-			m := &core.Machine[rzState]{P: r.P, Fn: f, Spec: sp}
+			m := &core.Machine[rzState]{P: r.P, Fn: f, Spec: sp, Inline: helperInline(r)}
 			m.Step = func(ctx *core.Ctx[rzState], s rzState, in ssa.Instruction) []rzState {
 				if ev := r.M.LockEventOf(in); ev != nil && ev.Class == "resize" {
 					s.Mu = ev.Acquire
@@ -407,9 +407,23 @@ func c13L3(r *Run, rep *core.Report) {
 			}
 		}
 		// the flag is written nowhere else
+		inl := helperInline(r)
 		for _, g := range r.P.Funcs {
 			if g == f {
 				continue
+			}
+			if inl(g, nil) {
+				// a helper analysed in place: fine when it is only ever called from the resize function
+				only := true
+				sites := core.CallSitesOf(r.P.Funcs, g)
+				for _, site := range sites {
+					if site.Parent() != f {
+						only = false
+					}
+				}
+				if only && len(sites) > 0 {
+					continue
+				}
 			}
 			core.Instrs(g, func(in ssa.Instruction) {
 				if c, ok := in.(ssa.CallInstruction); ok {
@@ -451,7 +465,7 @@ func c13L4(r *Run, rep *core.Report) {
 		}
 		mm := r.M.MapOfFunc(f)
 		rep.Fn(fn(f))
-		m := &core.Machine[wtState]{P: r.P, Fn: f, Spec: core.Spec{}}
+		m := &core.Machine[wtState]{P: r.P, Fn: f, Spec: core.Spec{}, Inline: helperInline(r)}
 		okAt := map[ssa.Instruction]bool{}
 		m.Step = func(ctx *core.Ctx[wtState], s wtState, in ssa.Instruction) []wtState {
 			if ev := r.M.LockEventOf(in); ev != nil && ev.Class == "resize" {
